@@ -8,13 +8,11 @@ Section CompositeSurface.
      over the zip of the two row slices *)
   Variable g : Z -> Z -> result Z.
 
+  (* all of this is i64 arithmetic on values that come from i32s: nothing can overflow, and the two row starts are
+     non-negative by the clipping, so the casts to usize are exact *)
   Definition cs_row (dw sw : Z) (sbuf : list Z) (ox oy xa w : Z) (buf : list Z) (y : Z) : result (list Z) :=
-    do c0 <- chk32 (xa + ox);
-    do a <- chk32 (y + oy);
-    do b <- chk32 (a * dw);
-    do ds <- chk32 (c0 + b);
-    do m <- chk32 (y * sw);
-    do ss <- chk32 (xa + m);
+    let ds := xa + ox + (y + oy) * dw in
+    let ss := xa + y * sw in
     do srow <- slice sbuf ss (ss + w);
     do drow <- slice buf ds (ds + w);
     do row <- map2r g srow drow;
@@ -28,17 +26,14 @@ Section CompositeSurface.
 
   Definition composite_surface (dw dh : Z) (dbuf : list Z) (sw sh : Z) (sbuf : list Z)
              (sr : rect) (dx dy : Z) : result (list Z) :=
-    do ox <- chk32 (dx - x0 sr);
-    do oy <- chk32 (dy - y0 sr);
-    let sr1 := r_inter sr (mkrect 0 0 sw sh) in
-    do t <- r_translate sr1 ox oy;
-    let c := r_inter (mkrect 0 0 dw dh) t in
-    do nox <- chk32 (- ox);
-    do noy <- chk32 (- oy);
-    do sr2 <- r_translate c nox noy;
-    if r_empty sr2 then Ok dbuf else
-    do w <- chk32 (x1 sr2 - x0 sr2);
-    cs_rows dw sw sbuf ox oy (x0 sr2) w (zrange (y0 sr2) (y1 sr2)) dbuf.
+    let ox := dx - x0 sr in
+    let oy := dy - y0 sr in
+    let xa := Z.max (Z.max (x0 sr) 0) (- ox) in
+    let ya := Z.max (Z.max (y0 sr) 0) (- oy) in
+    let xb := Z.min (Z.min (x1 sr) sw) (dw - ox) in
+    let yb := Z.min (Z.min (y1 sr) sh) (dh - oy) in
+    if (xb <=? xa) || (yb <=? ya) then Ok dbuf else
+    cs_rows dw sw sbuf ox oy xa (xb - xa) (zrange ya yb) dbuf.
 End CompositeSurface.
 
 (* what the property asks for, as a decidable predicate on one destination pixel *)
